@@ -37,7 +37,8 @@ var exhaustive = map[string]int64{clB6Byte: 256, clB8Byte: 256, clB6Group: 729, 
 func init() {
 	fw.Register(&fw.Prop{
 		ID:       "C14",
-		Parallel: 4, // cases are judged on 4 goroutines per shard: the library functions are stateless, shared state inside them shows up as wrong verdicts
+		Builds:   []string{"default", "386"}, // the 386 build runs a quarter of the random classes on a 32-bit target
+		Parallel: 4,                          // cases are judged on 4 goroutines per shard: the library functions are stateless, shared state inside them shows up as wrong verdicts
 		Rule: "exhaustive: every byte through Encode/EncodeToTrytes/Decode/DecodeTrytes of b1t6 and Encode/Decode of b1t8; every one of the 3^6 b1t6 groups as trits (Decode) and as a tryte pair (DecodeTrytes), every one of the 3^8 b1t8 groups. " +
 			"sequences: for every group count 0..64, every position of an invalid group (and none), every remainder length (b1t6: 0..5 trits with 0/1-only and arbitrary contents; trytes: 0 or 1 extra tryte; b1t8: 0..7 trits with and without a -1 in the remainder), random contents, optionally further invalid groups behind the first; random byte strings of length 0..64 (some up to 2000) through encode and decode. " +
 			"Verdict, sentinel (errors.Is), returned byte count and the bytes written before the fault are compared with the model; accepted inputs are re-encoded and must reproduce the input. Only trits in {-1,0,1} and trytes in [9A-Z] are generated. " +
@@ -67,7 +68,17 @@ func init() {
 
 func post(r *fw.RunResult) {
 	ok := true
+	// every build variant (native, 386) enumerates the exhaustive classes once
+	nb := int64(0)
+	seen := map[string]bool{}
+	for _, sh := range r.Shards {
+		if !seen[sh.Build] {
+			seen[sh.Build] = true
+			nb++
+		}
+	}
 	for cl, want := range exhaustive {
+		want *= nb
 		if r.ByClass[cl] != want {
 			ok = false
 			r.AddInconclusive("exhaustive class %s: %d cases evaluated, %d expected", cl, r.ByClass[cl], want)
@@ -80,7 +91,7 @@ func post(r *fw.RunResult) {
 			acc, rej int64
 		}{{clB6Group, 256, 473}, {clB6Trytes, 256, 473}, {clB8Group, 256, 6305}} {
 			a, j := r.Counters[e.cl+" model=accept impl=accept"], r.Counters[e.cl+" model=reject impl=reject"]
-			if a != e.acc || j != e.rej {
+			if a != e.acc*nb || j != e.rej*nb {
 				ok = false
 				r.AddInconclusive("exhaustive class %s: %d accepted / %d rejected, expected %d / %d", e.cl, a, j, e.acc, e.rej)
 			}
@@ -88,6 +99,7 @@ func post(r *fw.RunResult) {
 	}
 	r.Exhaustive = ok
 	r.Extra["exhaustive_classes"] = exhaustive
+	r.Extra["exhaustive_classes_enumerated_in_builds"] = nb
 }
 
 // ---------------------------------------------------------------------------
